@@ -176,3 +176,18 @@ def mre_parts(p: str, k: int) -> list:
 def mapped_pattern(p: str) -> str:
     """the pattern handed to the regex engine for the I-Regexp p"""
     return "".join(mre_parts(p, len(p)))
+
+
+# ---- normalized paths (node.py, C08) ---------------------------------------------------------------------------------
+def path_piece(p: V) -> str:
+    """one step of a normalized path (RFC 9535 2.7): ['name'] with the canonical spelling of the name, or [index]"""
+    if is_str(p):
+        return "[" + canonical(str_of(p)) + "]"
+    return "[" + int_str(int_of(p)) + "]"
+
+
+def map_path_piece(loc: list, k: int) -> list:
+    """the steps of the first k location components"""
+    if k <= 0:
+        return []
+    return map_path_piece(loc, k - 1) + [path_piece(loc[k - 1])]
